@@ -30,3 +30,52 @@ PROPS["C18"] = {
         {"test": "^TestC18Conc$", "quick": {"checks": 400, "shards": 2}, "thorough": {"checks": 10000, "shards": 4}},
     ],
 }
+
+CRASH_ASSUMPTIONS = COMMON_ASSUMPTIONS + [
+    "crash points start when the first MakeNfs has returned (formatting is a precondition, not an NFS operation)",
+    "lost writes: any subset of the writes issued since the last barrier (explored: none, all, all-but-last, first, each single one when <=8 pending, hashed subsets)",
+    "traces depend on background-thread timing; each failure is reported with the program and the crash point",
+]
+
+PROPS["C01"] = {
+    "level": "fault_enumeration",
+    "technique": "generated NFS programs (rapid) -> recorded disk trace -> enumeration of crash points x lost-write variants -> real recovery -> prefix oracle against the reference model; sampled second crashes during recovery and post-recovery workloads",
+    "level_text": "For each generated client program (all mutating RPCs, three stability levels, multi-block and sparse writes, truncations, removals of files large enough for the background shrinker, clean restarts with and without COMMIT) one live run records every disk write and barrier; crash points (quick: <=300 per program, commit-adjacent first; thorough: all) x loss variants are recovered with nfs.MakeNfs and the whole tree (names, handles, sizes, bytes, link targets) must equal the reference state after a prefix j with last-stable-ack <= j <= last-started. 1/16 of the recovered servers run a further workload under the sequential oracle, 1/16 are crashed again at every point of their own recovery writes.",
+    "level_note": "Programs, and the timing of background threads in the live run, are sampled; crash points and loss variants are enumerated per trace as stated. Trusts the reference model (harness/checks/model.go) and the disk contract.",
+    "rule": ("unit = one crash image (program, crash point k, loss variant). Non-trivial: an operation is in flight or unstable operations are pending at k "
+             "(the oracle window lo<hi), or at least one un-barriered write is dropped. distinct = FNV hash of (program history, disk size, k, variant)."),
+    "assumptions": CRASH_ASSUMPTIONS,
+    "required_classes": ["crash_images", "images_followed_by_suffix_workload", "recrash_images"],
+    "units": [
+        {"test": "^TestC01Crash$", "quick": {"checks": 5, "shards": 2, "procs": 8, "timeout": 600},
+         "thorough": {"checks": 60, "shards": 4, "procs": 4, "timeout": 7200}},
+    ],
+}
+
+PROPS["C07"] = {
+    "level": "fault_enumeration",
+    "technique": "generated UNSTABLE/DATA_SYNC/FILE_SYNC write + COMMIT programs (rapid) -> recorded disk trace -> crash-point x lost-write enumeration -> prefix oracle with stable acknowledgements as lower bound; reply checks for committed level and write verifier",
+    "level_text": "Same engine as C01 with programs biased to writes of all three stability levels on several files interleaved with COMMITs and metadata operations, server option Unstable on (3/4) and off (1/4), clean restarts with and without a preceding COMMIT. Oracle: data readable immediately (sequential oracle on every reply); committed >= requested and FILE_SYNC when the option is off; a reply claiming DATA_SYNC/FILE_SYNC, a COMMIT, or any later stable operation raises the durable lower bound; every crash image and every restart must show a prefix of the acknowledgement order (no hole, nothing stable lost); one verifier per server instance, different across instances.",
+    "level_note": "As C01. The verifier-difference check compares instances within one case (restarts).",
+    "rule": ("unit = one crash image of a write/commit-biased program. Non-trivial: at the crash point at least one UNSTABLE-acknowledged, state-changing operation is not yet covered by a stable acknowledgement. distinct = FNV hash of (program, k, variant)."),
+    "assumptions": CRASH_ASSUMPTIONS,
+    "required_classes": ["crash_images", "images_with_unstable_acked_ops_pending"],
+    "units": [
+        {"test": "^TestC07Crash$", "quick": {"checks": 5, "shards": 2, "procs": 8, "timeout": 600},
+         "thorough": {"checks": 60, "shards": 4, "procs": 4, "timeout": 7200}},
+    ],
+}
+
+PROPS["C02"] = {
+    "level": "exploration",
+    "technique": "model-based stateful PBT (rapid state machine over all 22 procedures) against an in-memory reference file system; direct calls and the real XDR/RPC path",
+    "level_text": "rapid state machine with one action per procedure (unsupported ones and exclusive CREATE included), arguments drawn model-aware (live/dead/forged/garbage handles, colliding/long/dot names, offsets dense at block and indirection boundaries up to and beyond the advertised maximum, counts 0..wtmax+), clean restarts; every reply is compared with the reference (success/failure, handle, type, size, file id, data, link target, listing, committed level, verifier) and the whole tree is compared every 16 steps, at the end, and after a final cold restart.",
+    "level_note": "Sampled sequences (shrinks to minimal on failure). Space never binds by construction (budget). Error codes are not compared except NOTSUPP/STALE where the property says so. Cross-directory renames of directories are excluded (known findings KF2/KF3) and counted.",
+    "rule": ("unit = one generated operation sequence (about 30 RPCs on average, more in thorough) on a fresh 14000-block disk, with Unstable on/off and direct/RPC adapter drawn per case. "
+             "Non-trivial: >=1 successful mutation and at least one of {clean restart inside the sequence, a file growing past the direct blocks, shrink-then-grow of one file, a failed request followed by successful ones, RPC adapter}. distinct = FNV hash of the full history."),
+    "assumptions": COMMON_ASSUMPTIONS,
+    "required_classes": ["case_with_restart", "case_crossing_indirection", "case_via_rpc", "case_failed_op_then_more"],
+    "units": [
+        {"test": "^TestC02Seq$", "quick": {"checks": 120, "shards": 8}, "thorough": {"checks": 1500, "shards": 16, "steps": 80}},
+    ],
+}
